@@ -65,9 +65,9 @@ fn run(ctx: &Ctx) {
 	if !ctx.run_prop("drop-bg", n, crash_scenario(3, 4, 14, true, 40_000), |sc, dir| run_drop_scenario(sc, dir, true)) {
 		return
 	}
-	let opts = CrashOpts { cap: if thorough { 300 } else { 100 }, rec_depth: 1, synced_bound: true, tail: false };
+	let opts = CrashOpts { cap: if thorough { 300 } else { 100 }, rec_depth: 1, synced_bound: true, tail: false, layout: false, tolerate_known: true };
 	let n = scaled(ctx, 42, 2_000);
-	ctx.run_prop("synced", n, crash_case(3, 4, 12, true), |c, dir| run_crash_case(c, dir, &opts));
+	ctx.run_prop_shrink("synced", n, 60, crash_case(3, 4, 12, true), |c, dir| run_crash_case(c, dir, &opts));
 }
 
 fn replay(ctx: &Ctx, path: &Path) -> Result<(), Failure> {
@@ -77,7 +77,7 @@ fn replay(ctx: &Ctx, path: &Path) -> Result<(), Failure> {
 	let sub = v.get("sub").and_then(|s| s.as_str()).unwrap_or("").to_string();
 	if sub == "synced" {
 		let (_s, case): (String, CrashCase) = load_replay(path).map_err(|e| Failure::new("bad-replay", e))?;
-		let opts = CrashOpts { cap: 300, rec_depth: 1, synced_bound: true, tail: false };
+		let opts = CrashOpts { cap: 300, rec_depth: 1, synced_bound: true, tail: false, layout: false, tolerate_known: true };
 		guarded(|| run_crash_case(&case, &dir, &opts)).map(|_| ())
 	} else {
 		let (_s, sc): (String, Scenario) = load_replay(path).map_err(|e| Failure::new("bad-replay", e))?;
